@@ -5,12 +5,14 @@ import (
 	"context"
 	"errors"
 	"fmt"
+	"net/http"
 
 	"github.com/emersion/go-ical"
 	"github.com/emersion/go-vcard"
 	"github.com/emersion/go-webdav"
 	"github.com/emersion/go-webdav/caldav"
 	"github.com/emersion/go-webdav/carddav"
+	"github.com/emersion/go-webdav/verifharness/davx"
 	"github.com/emersion/go-webdav/verifharness/doubles"
 	"github.com/emersion/go-webdav/verifharness/fw"
 )
@@ -36,12 +38,13 @@ type stack struct {
 	multiget            func(coll string, paths []string) ([]nObj, error)
 	query               func(coll string) ([]nObj, error)
 	put                 func(path string, o *nObj) (*nObj, error)
-	sync                func(coll, token string) (string, []nObj, []string, error)
+	sync                func(coll string, a syncArgs) (string, []nObj, []string, error)
 	decode              func(b []byte) (*nObj, error) // codec decoding of a wire body (trusted via the pre-filter)
 	exchanges           func() []doubles.Exchange
 	calls               func() []doubles.Call
 	delivered           func(c doubles.Call) *nObj // object handed to the backend's Put
 	putOp               string
+	raw                 func(method, path string, body []byte) // a harness-written request straight to the handler (recorded like the client's)
 	setQuery, setPutRes func()
 }
 
@@ -211,14 +214,21 @@ func cardClientFace(st *stack, cl *carddav.Client) {
 		}
 		return &nObj{Path: r.Path, ETag: r.ETag, Mod: r.ModTime, Len: r.ContentLength}, nil
 	}
-	st.sync = func(coll, token string) (string, []nObj, []string, error) {
-		r, err := cl.SyncCollection(ctx, coll, &carddav.SyncQuery{DataRequest: carddav.AddressDataRequest{AllProp: true}, SyncToken: token})
+	st.sync = func(coll string, a syncArgs) (string, []nObj, []string, error) {
+		q := &carddav.SyncQuery{SyncToken: a.Token, Limit: a.Limit}
+		switch a.Data {
+		case "", "allprop":
+			q.DataRequest.AllProp = true
+		case "props":
+			q.DataRequest.Props = []string{"VERSION", "UID", "FN"}
+		} // "zero": the zero DataRequest (address-data without a selection: the whole card)
+		r, err := cl.SyncCollection(ctx, coll, q)
 		if err != nil || r == nil {
 			return "", nil, nil, err
 		}
 		var up []nObj
 		for _, o := range r.Updated {
-			up = append(up, nObj{Path: o.Path, ETag: o.ETag, Mod: o.ModTime})
+			up = append(up, nObj{Path: o.Path, ETag: o.ETag, Mod: o.ModTime, Card: fromVcard(o.Card)})
 		}
 		return r.SyncToken, up, r.Deleted, nil
 	}
@@ -228,7 +238,27 @@ func cardClientFace(st *stack, cl *carddav.Client) {
 	}
 }
 
+// syncArgs are the caller's arguments of one SyncCollection call.
+type syncArgs struct {
+	Token string `json:"token"`           // "" = initial synchronisation
+	Limit int    `json:"limit,omitempty"` // <= 0: unlimited
+	Data  string `json:"data,omitempty"`  // "" / "allprop", "zero" (both: the whole card), "props" (a selection)
+}
+
 const endpoint = "http://dav.example/"
+
+func rawVia(ip *doubles.InProc) func(method, path string, body []byte) {
+	return func(method, path string, body []byte) {
+		req, err := http.NewRequest(method, "http://dav.example"+davx.EscapePath(path), bytes.NewReader(body))
+		if err != nil {
+			return
+		}
+		req.Header.Set("Content-Type", "application/xml; charset=\"utf-8\"")
+		if resp, err := ip.RoundTrip(req); err == nil {
+			resp.Body.Close()
+		}
+	}
+}
 
 // buildServerStack wires real client <-> real handler <-> recording backend.
 func buildServerStack(w *world) (*stack, error) {
@@ -274,18 +304,19 @@ func buildServerStackVia(w *world, gt *gate) (*stack, func(ctx context.Context, 
 		st.setPutRes = func() {
 			be.PutResult = &caldav.CalendarObject{Path: w.PutRes.Path, ETag: w.PutRes.ETag, ModTime: w.PutRes.libTime(), ContentLength: w.PutRes.Len}
 		}
-		ip := &doubles.InProc{Handler: &caldav.Handler{Backend: be}, Record: true}
+		ip := &doubles.InProc{Handler: &caldav.Handler{Backend: be, Prefix: w.Mount}, Record: true}
 		var hc webdav.HTTPClient = ip
 		if gt != nil {
 			gt.ip = ip
 			hc = gt
 		}
-		cl, err := caldav.NewClient(hc, endpoint)
+		cl, err := caldav.NewClient(hc, w.endpointURL())
 		if err != nil {
 			return nil, nil, err
 		}
 		calClientFace(st, cl)
 		st.exchanges, st.calls = ip.Exchanges, be.Calls
+		st.raw = rawVia(ip)
 		face := func(ctx context.Context, id int) *stack {
 			f := &stack{ctx: ctx}
 			calClientFace(f, cl)
@@ -321,18 +352,19 @@ func buildServerStackVia(w *world, gt *gate) (*stack, func(ctx context.Context, 
 	st.setPutRes = func() {
 		be.PutResult = &carddav.AddressObject{Path: w.PutRes.Path, ETag: w.PutRes.ETag, ModTime: w.PutRes.libTime(), ContentLength: w.PutRes.Len}
 	}
-	ip := &doubles.InProc{Handler: &carddav.Handler{Backend: be}, Record: true}
+	ip := &doubles.InProc{Handler: &carddav.Handler{Backend: be, Prefix: w.Mount}, Record: true}
 	var hc webdav.HTTPClient = ip
 	if gt != nil {
 		gt.ip = ip
 		hc = gt
 	}
-	cl, err := carddav.NewClient(hc, endpoint)
+	cl, err := carddav.NewClient(hc, w.endpointURL())
 	if err != nil {
 		return nil, nil, err
 	}
 	cardClientFace(st, cl)
 	st.exchanges, st.calls = ip.Exchanges, be.Calls
+	st.raw = rawVia(ip)
 	face := func(ctx context.Context, id int) *stack {
 		f := &stack{ctx: ctx}
 		cardClientFace(f, cl)
